@@ -5,7 +5,7 @@ import threading
 from vf import Inconclusive, parallel, require_clean, validate_traces, vfj_lines
 
 CLAIM = {
-    "text": "MathExpr.tla specifies the `{! ..}` formula language: the operator table (^ before << >> before * / % before & | before + - before = == <= >= < > before && ||, equal levels left to right, unary operators bind to the value, a value followed by a group is an implied *), exact rational values with an explicit domain (bounded magnitude/denominators, integer-only operators on exact integers, a sound bound on the float64 rounding error; outside it only 'no crash'), a printer with minimal or redundant parentheses, implied multiplication and 0x/0b/.0 and [n]/[name]/bare spellings, a reference grammar parser (precedence climbing with binding powers) and an independent flat-scan classification of token strings into well-formed / malformed (empty formula or group, unbalanced parentheses, leading, dangling or adjacent binary operators) / undocumented, plus an implementation-shaped transcription of tokenizeExpr (groups, unary detection, longest operator match), compileTokens/getNextExpr/getNextOp and opCodeOrder. TLC proves on the model: every tree with up to 3 operators prints (all variants) to a well-formed string that the grammar and the implementation-shaped parser both read back as the same tree; for every token string up to length 5 (6 thorough) the classification agrees with the grammar, the implementation-shaped parser returns the grammar's tree on well-formed strings, rejects malformed ones and never panics; `a o1 b o2 c` has the value of the grouping the table dictates for all 18x18 operator pairs; arithmetic identities; constant = bound variable. TLC then enumerates every token string up to length 5 with its class and all trees with 1 and 2 binary operators over all 18 operators (3 over one operator per level; all 18 thorough), unary operators and functions, with the exact rational value per binding; the real stdmath.Compile and `{! ..}` through the KeyBuilder evaluate every printing with and without blanks under bindings with 0, negatives, halves and quarters. Seeded random formulas of 10-30 tokens (and damaged copies) and all 2^k constant<->variable variants of random formulas with trigonometric/logarithmic functions and huge bindings are recorded and judged by TLC (MathExpr_Trace).",
+    "text": "MathExpr.tla specifies the `{! ..}` formula language: the operator table (^ before << >> before * / % before & | before + - before = == <= >= < > before && ||, equal levels left to right, unary operators bind to the value, a value followed by a group is an implied *), exact rational values with an explicit domain (bounded magnitude/denominators, integer-only operators on exact integers, a sound bound on the float64 rounding error; outside it only 'no crash'), a printer with minimal or redundant parentheses, implied multiplication and 0x/0b/.0 and [n]/[name]/bare spellings, a reference grammar parser (precedence climbing with binding powers) and an independent flat-scan classification of token strings into well-formed / malformed (empty formula or group, unbalanced parentheses, leading, dangling or adjacent binary operators) / undocumented, plus an implementation-shaped transcription of tokenizeExpr (groups, unary detection, longest operator match), compileTokens/getNextExpr/getNextOp and opCodeOrder. TLC proves on the model: every tree with up to 3 operators prints (all variants) to a well-formed string that the grammar and the implementation-shaped parser both read back as the same tree; for every token string up to length 5 (6 thorough) the classification agrees with the grammar, the implementation-shaped parser returns the grammar's tree on well-formed strings, rejects malformed ones and never panics; `a o1 b o2 c` has the value of the grouping the table dictates for all 18x18 operator pairs; arithmetic identities; constant = bound variable. TLC then enumerates every token string up to length 5 with its class and all trees with 1 and 2 binary operators over all 18 operators (3 over one operator per level; all 18 thorough), unary operators and functions, with the exact rational value per binding; the real stdmath.Compile and `{! ..}` through the KeyBuilder evaluate every printing with and without blanks under bindings with 0, negatives, halves and quarters. Seeded random formulas of 10-30 tokens (and damaged copies) and all 2^k constant<->variable variants of random formulas with trigonometric/logarithmic functions and huge bindings are recorded and judged by TLC (MathExpr_Trace). MathExprFold.tla specifies the second clause (constants equal bound variables; the value depends on the formula and the current binding only): evaluation = the parse tree, operands left to right, over an exact model of float64 where re-association is observable (scales 2^-1021 / 1 / 2^1021 with dyadic multipliers, overflow to Inf, underflow to 0, absorption, signed zeros, NaN); Simplify may fold only sub-trees without variables. TLC proves: the arithmetic is commutative but not associative or distributive (witnesses), folding is invisible (FoldSound), lifting any subset of the literals into variables bound to the same values or writing the bound values as literals gives the same value and the same key (LiftSound, SubstSound, LiftKeySound), the invisible rewrites x*1 x/1 x-0 x^1 --x a+b=b+a stay invisible, and six unsound simplifiers (trailing / leading / commuted constants of + and * chains, merged subtrahends and divisors, distribution, x*0 x+0 0-x x-x x/x) are each told apart by generated trees; with an uninterpreted operation on 2 (3 thorough) elements folding is sound for every operation and folding with re-association exactly for the associative ones. Every tree of four families (one operator with identities and unary operators; two operators; same-level chains of three in all five shapes; constant sub-trees inside functions) is replayed: compiled once per variant and engine, each compiled object evaluated along a schedule of 10 bindings (repeats, neighbours sharing x or y), a quarter also from 3 goroutines at once, every result compared with the value TLC predicted; then with real inexact values (0.1, 0.7, 1/3, 1e308, the largest and smallest float64, -0, NaN, Inf) all recorded result texts of a family are judged by MathExprFold_Trace: equal values at the leaves => equal text, whatever variant, object, goroutine or history.",
     "note": "Bounded: values beyond 10^6 or denominators beyond 1024, non-integer exponents, ties of round, integer-only operators on negative/non-integer operands and the values of sqrt/trig/log functions are outside the value domain (only 'no crash' and the constant/variable law). The positions of the shift and bit operators in the table, 'unary binds tightest' and 'implied * has the precedence of *' are taken from the implementation (the documentation only says common order of operations). Undocumented forms (two unary operators in a row, two values in a row, function names without a group, literals such as 010 or 1e3) are accepted with any verdict. Trusted: TLC, Go's float64 arithmetic and math.Pow for small integer powers.",
     "technique": "TLA+ functional specification + implementation-shaped parser model checked for agreement by TLC + model-generated vectors replayed on the real code + TLC validation of recorded evaluations",
 }
@@ -31,6 +31,20 @@ def gen_cfg(gmode, maxlen=5, alphabet=ALPHA9, g3ops=LEVEL7, big=False):
     return ("INIT GInit\nNEXT GNext\nCONSTANTS Mode = \"value\"\n MaxN = 2\n MaxLen = %d\n TreeOps = {\"+\"}\n Alphabet = %s\n"
             " GMode = \"%s\"\n G3Ops = %s\n Big = %s\nINVARIANTS GLaw Dump\nCHECK_DEADLOCK FALSE\n"
             % (maxlen, _set(alphabet), gmode, _set(g3ops), "TRUE" if big else "FALSE"))
+
+
+def fold_cfg(fmode, family="one", magma=2, wide=False, gen=False):
+    return ("INIT FInit\nNEXT FNext\nCONSTANTS FMode = \"%s\"\n Family = \"%s\"\n MagmaN = %d\n Wide = %s\nINVARIANTS %s\nCHECK_DEADLOCK FALSE\n"
+            % (fmode, family, magma, "TRUE" if wide else "FALSE", "GLawX DumpX" if gen else "FLaw"))
+
+
+CONTROLS = ["trail", "across", "lead", "mixed", "distribute", "ident"]
+
+
+def _short(text):
+    """formula text with the long decimal expansions (2^1021 has 308 digits) abbreviated"""
+    import re
+    return re.sub(r"\d[\d.]{24,}", lambda mo: "%s..(%d digits)" % (mo.group(0)[:12], len(mo.group(0))), text)
 
 
 class Budget:
@@ -125,6 +139,29 @@ def _check(run):
             return vs
         return lambda: bud.run(workers, f)
 
+    def genx(family, workers, minvec, wide=False):
+        def f():
+            label = "MathExprFold_Gen " + family
+            r = run.tlc("MathExprFold_Gen", fold_cfg("trees", family, wide=wide, gen=True), workers=workers, timeout=3000, label=label, xmx="4g")
+            if r.violated:
+                require_clean(run, r, label + " (FoldSound / LiftSound / SubstSound / HarmlessSound)")
+            if r.errors or not r.finished:
+                raise Inconclusive("generator %s failed: %s" % (label, r.out[-2000:]))
+            vs = vfj_lines(r.out)
+            if len(vs) < minvec or not any(v["g"] == "header" for v in vs):
+                raise Inconclusive("generator %s produced only %d vectors" % (label, len(vs)))
+            return [v for v in vs if v["g"] == "header"][:1] + [v for v in vs if v["g"] != "header"]
+        return lambda: bud.run(workers, f)
+
+    def mcx(label, cfg, workers, minstates):
+        def f():
+            r = run.tlc("MathExprFold_MC", cfg, workers=workers, timeout=3000, label=label)
+            require_clean(run, r, label)
+            if r.distinct < minstates:
+                raise Inconclusive("%s explored only %d cases" % (label, r.distinct))
+            return r
+        return lambda: bud.run(workers, f)
+
     def val(i, path):
         return lambda: bud.run(1, lambda: validate_traces(run, "MathExpr_Trace", path, label="MathExpr_Trace chunk %d" % i,
                                                           timeout=3000, xmx="3g"))
@@ -147,6 +184,9 @@ def _check(run):
                 gen("g2", gen_cfg("g2"), 2, 8000),
                 gen("g1", gen_cfg("g1"), 1, 1500),
                 gen("g3", gen_cfg("g3"), 1, 3000)]
+        gensx = [genx("two", 2, 4000), genx("three", 2, 4000), genx("func", 1, 2000), genx("one", 1, 1500)]
+        b3 += [mcx("B3 float64 edge arithmetic: laws, non-associativity, negative controls", fold_cfg("arith"), 1, 1),
+               mcx("B3 folding under every binary operation on 2 elements", fold_cfg("magma", magma=2), 1, 20)]
     else:
         b3 = [mc("B3 trees <=3 operators over %s" % " ".join(OPS9), mc_cfg("trees", 3, 5, OPS9), 4, 90000),
               mc("B3 trees <=2 operators over all 18", mc_cfg("trees", 2, 5, OPS18), 2, 4000),
@@ -156,10 +196,103 @@ def _check(run):
                 gen("g2", gen_cfg("g2", big=True), 4, 40000),
                 gen("g1", gen_cfg("g1"), 1, 1500),
                 gen("g3", gen_cfg("g3", g3ops=OPS18), 4, 50000)]
-    jobs = gens + b3 + [val(i, pth) for i, pth, _ in chunks]
+        gensx = [genx("three", 4, 12000, wide=True), genx("two", 4, 12000, wide=True), genx("func", 2, 3000, wide=True),
+                 genx("one", 1, 1500, wide=True)]
+        b3 += [mcx("B3 float64 edge arithmetic: laws, non-associativity, negative controls", fold_cfg("arith"), 1, 1),
+               mcx("B3 folding under every binary operation on 2 elements", fold_cfg("magma", magma=2), 1, 20),
+               mcx("B3 folding under every binary operation on 3 elements", fold_cfg("magma", magma=3), 4, 19000)]
+    jobs = gensx + gens + b3 + [val(i, pth) for i, pth, _ in chunks]
     results = parallel(jobs, len(jobs))
+    genx_res = results[:len(gensx)]
+    results = results[len(gensx):]
     gen_res = results[:len(gens)]
     val_res = results[len(gens) + len(b3):]
+
+    # ---- second clause (MathExprFold): B1 replay with predicted values + B2 recorded histories judged by TLC
+    fold_vec = os.path.join(run.scratch, "c19-fold-vectors.ndjson")
+    fold_res = os.path.join(run.scratch, "c19-fold-replay.json")
+    fold_tr = os.path.join(run.scratch, "c19-fold-trace.ndjson")
+    nfold = 0
+    with open(fold_vec, "w") as f:
+        for vs in genx_res:
+            for v in vs:
+                f.write(json.dumps(v, separators=(",", ":")) + "\n")
+                nfold += v["g"] != "header"
+    run.drv(["fold", "-in", fold_vec, "-out", fold_res, "-trace", fold_tr, "-rounds", 1 if quick else 2,
+             "-subs", 3 if quick else 5, "-par", 4 if quick else 8])
+    fres = json.load(open(fold_res))
+    if fres["vectors"] != nfold:
+        raise Inconclusive("fold: replayed %d of %d vectors" % (fres["vectors"], nfold))
+    for c in CONTROLS:
+        if not fres["sens"].get(c):
+            raise Inconclusive("no generated tree tells the negative control %r apart in the model" % c)
+    flines = open(fold_tr).read().splitlines()
+    nfam = len(flines)
+    fcanary = 0
+    for ln in flines[:3000]:
+        if fcanary >= 150:
+            break
+        rec = json.loads(ln)
+        if len(rec["outs"]) >= 2 and len(rec["ev"]) >= 4:
+            rec["ev"][0][6] = 1 + rec["ev"][0][6] % len(rec["outs"])
+            rec["canary"] = True
+            flines.append(json.dumps(rec, separators=(",", ":")))
+            fcanary += 1
+    kf = 3 if quick else 8
+    perf = (len(flines) + kf - 1) // kf
+    fchunks = []
+    for i in range(kf):
+        part = flines[i * perf:(i + 1) * perf]
+        if part:
+            pth = os.path.join(run.scratch, "c19-fold-chunk-%d.ndjson" % i)
+            with open(pth, "w") as f:
+                f.write("\n".join(part) + "\n")
+            fchunks.append((i, pth, part))
+    fval = parallel([(lambda i=i, pth=pth: bud.run(1, lambda: validate_traces(
+        run, "MathExprFold_Trace", pth, label="MathExprFold_Trace chunk %d" % i, timeout=3000, xmx="3g")))
+        for i, pth, _ in fchunks], len(fchunks))
+    run.cov["fold_b1_vectors"] = fres["vectors"]
+    run.cov["fold_b1_vectors_per_family"] = fres["per_group"]
+    run.cov["fold_b1_evaluations"] = fres["runs"]
+    run.cov["fold_b1_evaluations_with_predicted_value"] = fres["in_model"]
+    run.cov["fold_objects_evaluated_from_3_goroutines"] = fres["concurrent_objects"]
+    run.cov["fold_vectors_telling_a_negative_control_apart"] = fres["sens"]
+    run.cov["traces_validated_against_impl"] += fres["runs"]
+    run.cov["evaluations"] += fres["runs"]
+    run.cov["distinct_nontrivial"] += sum(fres["sens"].values())
+    for s in fres["samples"] or []:
+        run.sample({"fold": s})
+    for m in fres["mismatches"] or []:
+        run.violation("fold:%s:%s" % (m["class"], m["g"]),
+                      "formula %r (%s, variant %s, compiled once and evaluated under the bindings %s; x,y = %s at the last step) gives %s; "
+                      "the specification (MathExprFold, float64 edge arithmetic) expects %s" % (
+                          _short(m["text"]), m["engine"], m["variant"], m["history"], m["binding"], m["got"], m["expect"]), m)
+    fconsumed = fcan_rej = 0
+    for (i, pth, part), (r, _) in zip(fchunks, fval):
+        if r["consumed"] != len(part) or not r["done"]:
+            raise Inconclusive("fold trace chunk %d: consumed %d of %d records" % (i, r["consumed"], len(part)))
+        fconsumed += r["consumed"]
+        for bad in r["bad"]:
+            rec = json.loads(part[bad["l"] - 1])
+            if rec.get("canary"):
+                fcan_rej += 1
+                continue
+            # a readable account: per engine and binding, the texts the variants / objects / goroutines produced
+            seen = {}
+            for vi, eng, obj, g, seq, b, o in rec["ev"]:
+                va = rec["vs"][vi - 1]
+                bb = va["b"] if va["kind"] == "sub" else b
+                seen.setdefault((eng, bb), {}).setdefault(rec["outs"][o - 1], []).append(
+                    "%s%s obj %d%s step %d" % (va["kind"], va["s"] or "", obj, " goroutine %d" % g if g else "", seq))
+            diff = [(k, v) for k, v in sorted(seen.items()) if len(v) > 1][:2]
+            what = "formula %s with table %s: %s" % (" ".join(rec["toks"]), rec["tabv"], "; ".join(
+                "engine %d, x,y = %s: %s" % (k[0], rec["bindv"][k[1] - 1], " BUT ".join("%s from %s" % (t[:40], w[:3]) for t, w in v.items()))
+                for k, v in diff) or "evaluations whose leaves receive the same values print different texts")
+            run.violation("fold-law:%s:%s" % (bad["class"], rec["g"]), what, rec)
+    if fcan_rej * 2 < fcanary:
+        raise Inconclusive("fold trace validation rejected only %d of %d deliberately corrupted families" % (fcan_rej, fcanary))
+    run.cov["fold_b2_families"] = nfam
+    run.cov["fold_b2_corrupted_families_rejected"] = "%d of %d" % (fcan_rej, fcanary)
 
     # ---- B1: replay of the generated vectors on the real code
     nvec = 0
@@ -218,7 +351,9 @@ def _check(run):
         run.sample({"b2_records": [json.loads(next(f)) for _ in range(2)]})
     if (nontrivial - ncanary) * 2 < consumed:
         raise Inconclusive("only %d of %d recorded evaluations are inside the specified domain" % (nontrivial - ncanary, consumed))
-    run.cov["rule"] = ("B3: every tree / token string / operator pair of MathExpr_MC; B1: one vector per token string or tree, evaluated in every "
+    run.cov["rule"] = ("fold: one vector per tree of MathExprFold_MC (families one/two/three/func), every vector compiled in its variants and each "
+                       "compiled object evaluated along a schedule of 10 bindings, non-trivial = the tree tells at least one unsound simplifier "
+                       "(negative control) apart in the model; B3: every tree / token string / operator pair of MathExpr_MC; B1: one vector per token string or tree, evaluated in every "
                        "printing x blanks x {stdmath, quoted and bare `{! ..}`} x 5 bindings, non-trivial = malformed (must be rejected) or some "
                        "binding with a value inside the domain; B2: one record per evaluation / per 2^k variant family, inside the domain = "
                        "malformed, well-formed with a defined value, or a family of >= 2 variants")
